@@ -145,6 +145,61 @@ func runC13(w *World, r *Report) {
 		}
 	}
 
+	// ---- R-C13-7: a failed sub-compile leaves no declarations in the shared scopes
+	r.Rule("R-C13-7", "the clone that compiles a test body shares the file's open scopes; when that compile fails, compileTestBody takes the names it declared there out again: every path from the sub-compile to the emission of the compile-error Signal passes a call of a function that deletes from a scope's usage map", 1)
+
+	{
+		var sub *ssa.Call
+
+		allInstrs(fn, func(in ssa.Instruction) {
+			if c, ok := in.(*ssa.Call); ok && callID(c.Common()) == "internal/language/compiler.Compiler.Compile" {
+				sub = c
+			}
+		})
+
+		cleans := func(in ssa.Instruction) bool {
+			c, ok := in.(*ssa.Call)
+			if !ok {
+				return false
+			}
+
+			callee := c.Common().StaticCallee()
+			if callee == nil || len(callee.Blocks) == 0 {
+				return false
+			}
+
+			found := false
+
+			allInstrs(callee, func(i ssa.Instruction) {
+				d, ok := i.(*ssa.Call)
+				if !ok {
+					return
+				}
+
+				if b, isB := d.Call.Value.(*ssa.Builtin); isB && b.Name() == "delete" && len(d.Call.Args) == 2 && isFieldNamed(d.Call.Args[0], "usage") {
+					found = true
+				}
+			})
+
+			return found
+		}
+
+		key := "compiler.Compiler.compileTestBody|failed sub-compile leaves no declarations behind"
+
+		if sub == nil {
+			r.Anchor("R-C13-7", "the sub-compile call in compileTestBody")
+		} else if hit := pathAvoiding(sub, cutEdges(fn, func(f Fact) bool {
+			// the compile failed: paths on which its error is nil are not of interest
+			e, ok := f.V.(*ssa.Extract)
+
+			return f.Kind == "nil" && ok && e.Tuple == ssa.Value(sub) && e.Index == 1
+		}), cleans, func(i ssa.Instruction) bool { return emitOf(i) == opSignal }); hit != nil {
+			r.Violate("R-C13-7", key, w.pos(hit.Pos()), "the compile-error path is reached without the names the failed body had declared in the shared (file-level) scopes being removed: they stay behind as 'declared but never used', the check of the file's top-level scope turns them into a compile error of the whole file, and not one test of the file runs")
+		} else {
+			r.Discharge("R-C13-7", key, w.pos(sub.Pos()), "usage maps of the shared scopes are restored before the error is signalled")
+		}
+	}
+
 	// ---- R-C13-1
 	var compileCall *ssa.Call
 
